@@ -15,10 +15,10 @@ namespace Orbit.Path
 /-- what `determine = some a` says -/
 theorem determine_some {isCid : String → Bool} {h name : String} {a : Addr}
     (hd : determine isCid h name = some a) :
-    isAddress isCid name = false ∧ parse isCid (joinAddr h name) = some a ∧ a.root = h := by
+    isAddress isCid name = false ∧ parse0 isCid (joinAddr h name) = some a ∧ a.root = h := by
   unfold determine at hd
   generalize isAddress isCid name = b at hd ⊢
-  generalize parse isCid (joinAddr h name) = p at hd ⊢
+  generalize parse0 isCid (joinAddr h name) = p at hd ⊢
   cases b with
   | true => cases hd
   | false =>
@@ -37,7 +37,7 @@ theorem determine_root {isCid : String → Bool} {h name : String} {a : Addr}
     (hd : determine isCid h name = some a) : a.root = h := (determine_some hd).2.2
 
 theorem determine_of_parse {isCid : String → Bool} {h name : String} {a : Addr}
-    (hn : isAddress isCid name = false) (hp : parse isCid (joinAddr h name) = some a)
+    (hn : isAddress isCid name = false) (hp : parse0 isCid (joinAddr h name) = some a)
     (hr : a.root = h) : determine isCid h name = some a := by
   unfold determine
   rw [hn, hp]
@@ -145,7 +145,7 @@ theorem determine_escape_unique {isCid : String → Bool} {h h' : String} (hh : 
 
 /-- 4. **`Parse (String a) = a`** for well-formed addresses -/
 theorem parse_print {isCid : String → Bool} {a : Addr} (hw : WF isCid a) :
-    parse isCid (print a) = some a := by
+    parse0 isCid (print a) = some a := by
   obtain ⟨hc, hr, segs, hsegs, hpath⟩ := hw
   have hcl : cleanAbs (["orbitdb", a.root] ++ segments a.path) = "orbitdb" :: a.root :: segs := by
     rw [cleanAbs_root hr.1, hpath, segments_intercalate' segs (fun x hx => (hsegs x hx).2)]
@@ -164,7 +164,7 @@ theorem parse_print {isCid : String → Bool} {a : Addr} (hw : WF isCid a) :
 /-- so every address answered by `determine` survives printing and parsing -/
 theorem determine_parse_print {isCid : String → Bool} {h name : String} {a : Addr}
     (hc : isCid h = true) (hh : Seg h) (hd : determine isCid h name = some a) :
-    parse isCid (print a) = some a := parse_print (determine_wf hc hh hd)
+    parse0 isCid (print a) = some a := parse_print (determine_wf hc hh hd)
 
 /-! ### 5. Cache directories (C18) -/
 
@@ -202,16 +202,68 @@ example : determine atCid "@H" "a//b/./c/" = some ⟨"@H", "a/b/c"⟩ := by deci
 example : determine atCid "@H" "x/../../@H/y" = some ⟨"@H", "y"⟩ := by decide   -- re-enters `@H`
 example : determine atCid "@H" "/orbitdb/@V/x" = none := by decide             -- already an address
 example : determine atCid "@H" "../.." = none := by decide
-example : parse atCid (print ⟨"@H", ""⟩) = some ⟨"@H", ""⟩ := by decide
-example : parse atCid (print ⟨"@H", "a/b/c"⟩) = some ⟨"@H", "a/b/c"⟩ := by decide
-example : parse atCid (print ⟨"@H", "é/ü/日本"⟩) = some ⟨"@H", "é/ü/日本"⟩ := by decide
+example : parse0 atCid (print ⟨"@H", ""⟩) = some ⟨"@H", ""⟩ := by decide
+example : parse0 atCid (print ⟨"@H", "a/b/c"⟩) = some ⟨"@H", "a/b/c"⟩ := by decide
+example : parse0 atCid (print ⟨"@H", "é/ü/日本"⟩) = some ⟨"@H", "é/ü/日本"⟩ := by decide
 /-- an ill-formed path is not a fixed point: `Parse ∘ String` cleans it -/
-example : parse atCid (print ⟨"@H", "a/../b"⟩) = some ⟨"@H", "b"⟩ := by decide
+example : parse0 atCid (print ⟨"@H", "a/../b"⟩) = some ⟨"@H", "b"⟩ := by decide
 example : WF atCid ⟨"@H", "a/b"⟩ := ⟨by decide, by decide, ["a", "b"], by decide, by decide⟩
 example : datastoreKey ["tmp", "cache"] ⟨"@H", "a/b"⟩ = ["tmp", "cache", "@H", "a", "b"] := by decide
 /-- without `CleanPath` a `..` in the path climbs into the neighbour's directory -/
 example : datastoreKey ["c"] ⟨"@H", "../@V"⟩ <+: datastoreKey ["c"] ⟨"@V", "x"⟩ := by decide
 example : determine atCid "@H" "shop" = some ⟨"@H", "shop"⟩ :=
   determine_below (by decide) (by decide) "shop" (by decide) (by decide)
+
+/-! ### `address.Parse` with its "stays below the root" guard (finding F28) -/
+
+/-- an address that prints and splits back to itself passes the guard -/
+theorem parse_print_of_parse0 {isCid : String → Bool} {a : Addr}
+    (h : parse0 isCid (print a) = some a) : parse isCid (print a) = some a := by
+  unfold parse staysBelowRoot
+  simp [h]
+
+/-- what the splitting step refuses, `Parse` refuses -/
+theorem parse_none_of_parse0 {isCid : String → Bool} {s : String}
+    (h : parse0 isCid s = none) : parse isCid s = none := by
+  unfold parse
+  rw [h]
+
+/-- a string that splits into `a` and is the printed form of `a` is accepted as `a` -/
+theorem parse_of_printed {isCid : String → Bool} {s : String} {a : Addr}
+    (h0 : parse0 isCid s = some a) (hp : print a = s) : parse isCid s = some a := by
+  have := parse_print_of_parse0 (isCid := isCid) (a := a) (by rw [hp]; exact h0)
+  rw [hp] at this
+  exact this
+
+/-- whatever `Parse` accepts, the splitting step accepted -/
+theorem parse0_of_parse {isCid : String → Bool} {s : String} {a : Addr}
+    (h : parse isCid s = some a) : parse0 isCid s = some a := by
+  unfold parse at h
+  cases h0 : parse0 isCid s with
+  | none => simp [h0] at h
+  | some b =>
+    simp only [h0] at h
+    split at h
+    · exact h
+    · cases h
+
+/-- **whatever `Parse` accepts prints as an address of the same database**: the printed form splits
+back to the same root -/
+theorem parse_print_same_root {isCid : String → Bool} {s : String} {a : Addr}
+    (h : parse isCid s = some a) : ∃ b, parse0 isCid (print a) = some b ∧ b.root = a.root := by
+  have h0 := parse0_of_parse h
+  unfold parse at h
+  rw [h0] at h
+  have h' : (if staysBelowRoot isCid a = true then some a else none) = some a := h
+  have hg : staysBelowRoot isCid a = true := by
+    cases hg : staysBelowRoot isCid a with
+    | true => rfl
+    | false => rw [hg] at h'; cases h'
+  unfold staysBelowRoot at hg
+  cases hp : parse0 isCid (print a) with
+  | none => rw [hp] at hg; cases hg
+  | some b =>
+    rw [hp] at hg
+    exact ⟨b, rfl, by simpa using hg⟩
 
 end Orbit.Path
